@@ -216,8 +216,19 @@ def fill_builder(tf_value):
         # the input of fill is the output of collapse: labels on bucket ends, strictly increasing
         st.qassumes.append(QAssume(lambda p: z3.Implies(z3.And(p >= 0, p < n), ts[p] % tf == 0), "labels-are-bucket-ends"))
         st.qassumes.append(QAssume(lambda p: z3.Implies(z3.And(p >= 0, p + 1 < n), ts[p] < ts[p + 1]), "labels-strictly-increasing"))
-        # lemma (induction on the distance, on paper; listed as an assumption): adjacent-strict order implies order w.r.t. the last
-        st.qassumes.append(QAssume(lambda p: z3.Implies(z3.And(p >= 0, p < n), ts[p] <= ts[n - 1]), "labels-bounded-by-the-last (lemma)"))
+        # lemma: adjacent-strict order implies order w.r.t. the last label.  Discharged here by induction on the distance
+        # d = n - 1 - p as two `lemma` obligations (base d == 0, step d -> d + 1 with the induction hypothesis instantiated at
+        # p + 1); only the induction principle over the naturals itself is taken from outside.
+        lp, ld = z3.Int("lemma.p"), z3.Int("lemma.d")
+        sb = st.fork()
+        sb.assume(z3.And(lp >= 0, lp < n, lp + 0 == n - 1))
+        ex.ctx.oblige(sb, "lemma", "labels-bounded-by-the-last:induction-base(d=0)", ts[lp] <= ts[n - 1], None)
+        ss_ = st.fork()
+        ss_.assume(z3.And(ld >= 0, lp >= 0, lp < n, lp + (ld + 1) == n - 1))
+        ss_.qassumes.append(QAssume(lambda q: z3.Implies(z3.And(q >= 0, q < n, q + ld == n - 1), ts[q] <= ts[n - 1]), "induction-hypothesis(d)"))
+        ss_.inst_terms.extend([("term", lp), ("term", lp + 1)])
+        ex.ctx.oblige(ss_, "lemma", "labels-bounded-by-the-last:induction-step(d+1)", ts[lp] <= ts[n - 1], None)
+        st.qassumes.append(QAssume(lambda p: z3.Implies(z3.And(p >= 0, p < n), ts[p] <= ts[n - 1]), "labels-bounded-by-the-last (lemma, proved by induction above)"))
         m = st.alloc(ObjP(mcls, {"candles": st.alloc(HListP("unused", csr, lo=z3.IntVal(0), hi=z3.IntVal(0))), "timeframe": None,
                                  "timeframe_fill": True, "candles_lifespan": None, "candlestick_type": None}))
         g = {"cs": csr, "n": SInt(n), "tf": SInt(tf), "next0": SInt(next0)}
